@@ -1,0 +1,111 @@
+//go:build verif
+
+package netceptor
+
+// Contracts for the deductive checker in /verif (comments only; compiled to nothing).
+
+//@ spec effname(s *Netceptor, name string) string := strings.EqualFold(name, "localhost") ? s.nodeID : name
+//@ spec hw(name string) int := uf("hwhash", "int", name)
+//@ spec be64(b []byte, o int) int := ((((((b[o]*256 + b[o+1])*256 + b[o+2])*256 + b[o+3])*256 + b[o+4])*256 + b[o+5])*256 + b[o+6])*256 + b[o+7]
+//@ spec isnameN(str string, b []byte, o int, n int) bool := len(str) <= n && (forall i int :: 0 <= i && i < len(str) ==> str[i] == b[o+i]) && (len(str) > 0 ==> b[o+len(str)-1] != 0) && (forall i int :: len(str) <= i && i < n ==> b[o+i] == 0)
+//@ spec padded(str string, b []byte, o int, n int) bool := forall i int :: 0 <= i && i < n ==> b[o+i] == (i < len(str) ? str[i] : 0)
+
+//@ monitor (s *Netceptor) hashLock
+//@   protects nameHashes
+//@   inv NONNIL: s.nameHashes != nil
+//@   guar STABLE: s.nameHashes == old(s.nameHashes) && forall h uint64 :: old(h in s.nameHashes) ==> (h in s.nameHashes) && s.nameHashes[h] == old(s.nameHashes[h])
+
+//@ structinv (s *Netceptor)
+//@   s.hashLock != nil && s.connLock != nil && s.routingTableLock != nil && s.listenerLock != nil && s.firewallLock != nil && s.knownNodeLock != nil && s.seenUpdatesLock != nil && s.sequenceLock != nil && s.serviceAdsLock != nil && s.workCommandsLock != nil && s.Logger != nil
+
+//@ func stringFromFixedLenBytes
+//@   tags C02 C07
+//@   safety
+//@   pure
+//@   ensures NAME: isnameN(result, bytes, 0, len(bytes))
+//@   loop for p >= 0 && bytes[p] == 0
+//@     invariant P: -1 <= p && p < len(bytes)
+//@     invariant Z: forall i int :: p < i && i < len(bytes) ==> bytes[i] == 0
+
+//@ func fixedLenBytesFromString
+//@   tags C02 C07
+//@   safety
+//@   requires l >= 0
+//@   modifies nothing
+//@   ensures LEN: len(result) == l && fresh(result)
+//@   ensures PAD: padded(s, result, 0, l)
+
+//@ func (*Netceptor).AddNameHash
+//@   tags C02 C07
+//@   safety
+//@   requires s != nil
+//@   modifies map(s.nameHashes)
+//@   ensures HASH: result == hw(effname(s, name))
+//@   ensures REG: result in s.nameHashes
+//@   ensures KEEPOLD: forall h uint64 :: old(h in s.nameHashes) ==> (h in s.nameHashes) && s.nameHashes[h] == old(s.nameHashes[h])
+//@   atrelease NEWNAME: !acq(result in s.nameHashes) ==> s.nameHashes[result] == effname(s, name)
+//@   atrelease KEEP: forall h uint64 :: acq(h in s.nameHashes) ==> (h in s.nameHashes) && s.nameHashes[h] == acq(s.nameHashes[h])
+
+//@ func (*Netceptor).GetNameFromHash
+//@   tags C02 C07
+//@   safety
+//@   requires s != nil
+//@   modifies nothing
+//@   ensures FOUND: result.1 == nil ==> (namehash in s.nameHashes) && result.0 == s.nameHashes[namehash]
+//@   ensures PRESENT: old(namehash in s.nameHashes) ==> result.1 == nil
+//@   atrelease MISSING: result.1 != nil <==> !acq(namehash in s.nameHashes)
+
+//@ func (*Netceptor).translateDataToMessage
+//@   tags C02 C07 C10
+//@   safety
+//@   requires s != nil
+//@   modifies nothing
+//@   ensures SHORT: len(data) < 36 ==> result.1 != nil
+//@   ensures ERRNIL: result.1 != nil ==> result.0 == nil
+//@   ensures SUCCESS: len(data) >= 36 && old(be64(data, 4) in s.nameHashes) && old(be64(data, 12) in s.nameHashes) ==> result.1 == nil
+//@   ensures OK: result.1 == nil ==> result.0 != nil && fresh(result.0) && len(data) >= 36
+//@   ensures FROMNODE: result.1 == nil ==> (be64(data, 4) in s.nameHashes) && result.0.FromNode == s.nameHashes[be64(data, 4)]
+//@   ensures TONODE: result.1 == nil ==> (be64(data, 12) in s.nameHashes) && result.0.ToNode == s.nameHashes[be64(data, 12)]
+//@   ensures FROMSVC: result.1 == nil ==> isnameN(result.0.FromService, data, 20, 8)
+//@   ensures TOSVC: result.1 == nil ==> isnameN(result.0.ToService, data, 28, 8)
+//@   ensures TTL: result.1 == nil ==> result.0.HopsToLive == data[1]
+//@   ensures PAYLOAD: result.1 == nil ==> result.0.Data == data[36:]
+
+//@ func (*Netceptor).translateDataFromMessage
+//@   tags C02 C07 C10
+//@   safety
+//@   requires s != nil && msg != nil
+//@   modifies map(s.nameHashes)
+//@   ensures NOERR: result.1 == nil && fresh(result.0)
+//@   ensures LEN: len(result.0) == 36 + len(msg.Data)
+//@   ensures HDR: result.0[0] == 0 && result.0[1] == msg.HopsToLive && result.0[2] == 0 && result.0[3] == 0
+//@   ensures FROMNODE: be64(result.0, 4) == hw(effname(s, msg.FromNode)) && (hw(effname(s, msg.FromNode)) in s.nameHashes)
+//@   ensures TONODE: be64(result.0, 12) == hw(effname(s, msg.ToNode)) && (hw(effname(s, msg.ToNode)) in s.nameHashes)
+//@   ensures FROMSVC: padded(msg.FromService, result.0, 20, 8)
+//@   ensures TOSVC: padded(msg.ToService, result.0, 28, 8)
+//@   ensures PAYLOAD: forall i int :: 0 <= i && i < len(msg.Data) ==> result.0[36+i] == old(msg.Data[i])
+
+//@ lemma svcname_roundtrip
+//@   tags C02
+//@   vars name string
+//@   use fixedLenBytesFromString(name, 8) as enc
+//@   use stringFromFixedLenBytes(enc) as dec
+//@   hyp NONZERO: 1 <= len(name) && len(name) <= 8 && forall i int :: 0 <= i && i < len(name) ==> name[i] != 0
+//@   show LEN: len(dec) == len(name)
+//@   show BYTES: forall i int :: 0 <= i && i < len(name) ==> dec[i] == name[i]
+
+//@ lemma codec_roundtrip
+//@   tags C02
+//@   vars s *Netceptor, msg *MessageData
+//@   use translateDataFromMessage(s, msg) as wire, err1
+//@   use translateDataToMessage(s, wire) as md, err2
+//@   hyp NONNIL: s != nil && msg != nil
+//@   hyp FROMSVC: 1 <= len(msg.FromService) && len(msg.FromService) <= 8 && forall i int :: 0 <= i && i < len(msg.FromService) ==> msg.FromService[i] != 0
+//@   hyp TOSVC: 1 <= len(msg.ToService) && len(msg.ToService) <= 8 && forall i int :: 0 <= i && i < len(msg.ToService) ==> msg.ToService[i] != 0
+//@   hyp NOCOLLISION: s.nameHashes[hw(effname(s, msg.FromNode))] == effname(s, msg.FromNode) && s.nameHashes[hw(effname(s, msg.ToNode))] == effname(s, msg.ToNode)
+//@   show OK: err1 == nil && err2 == nil && md != nil
+//@   show NODES: md.FromNode == effname(s, msg.FromNode) && md.ToNode == effname(s, msg.ToNode)
+//@   show TTL: md.HopsToLive == msg.HopsToLive
+//@   show FROMSVC: len(md.FromService) == len(msg.FromService) && forall i int :: 0 <= i && i < len(msg.FromService) ==> md.FromService[i] == msg.FromService[i]
+//@   show TOSVC: len(md.ToService) == len(msg.ToService) && forall i int :: 0 <= i && i < len(msg.ToService) ==> md.ToService[i] == msg.ToService[i]
+//@   show PAYLOAD: len(md.Data) == len(msg.Data) && forall i int :: 0 <= i && i < len(msg.Data) ==> md.Data[i] == msg.Data[i]
